@@ -29,10 +29,21 @@ class RemoveCsrfExemptTransformer(LibcstResultTransformer, NameResolutionMixin):
         if (
             self.find_base_name(original_node.decorator)
             == "django.views.decorators.csrf.csrf_exempt"
+            and self._is_reported(original_node)
         ):
             self.report_change(original_node)
             return cst.RemovalSentinel.REMOVE
         return original_node
+
+    def _is_reported(self, decorator: cst.Decorator) -> bool:
+        """Semgrep reports the decorated view as a whole: only decorators inside
+        a reported location are removed."""
+        line = self.node_position(decorator).start.line
+        return any(
+            location.start.line <= line <= location.end.line
+            for result in self.results or []
+            for location in result.locations
+        )
 
 
 SemgrepNoCsrfExempt = SemgrepCodemod(
